@@ -199,6 +199,8 @@ func (intp *Interpreter) executeOne(obj Object, execProc bool) error {
 	// 	fmt.Println("|-", intp.stackString(), "|", intp.objectString(obj))
 	// }
 
+	// counted records whether this call occupies a level of the execution stack
+	counted := execProc
 	if execProc {
 		if intp.execStackDepth >= 100 {
 			return intp.e(eExecstackoverflow, "exec stack overflow")
@@ -274,6 +276,16 @@ recurseTail:
 		if execProc {
 			if len(o) == 0 {
 				return nil
+			}
+
+			if !counted {
+				// a procedure called by name occupies a level, too
+				if intp.execStackDepth >= 100 {
+					return intp.e(eExecstackoverflow, "exec stack overflow")
+				}
+				intp.execStackDepth++
+				counted = true
+				defer func() { intp.execStackDepth-- }()
 			}
 
 			// use tail recursion
